@@ -36,9 +36,16 @@ def gen(ch):
     T = g.T
     prices = S.make_prices(T, ch.free("prices", S.PRICE_PAIRS[:2]))
     target = ch.free("target", TARGETS)
-    kind = ch.free("option", ["freq", "periodicity"])
+    kind = ch.free("option", ["freq", "periodicity", "both"])
     opt = {}
-    if kind == "freq":
+    if kind == "both":   # coarse frequency AND a periodicity that is a multiple of it
+        f = ch.pick("freq", GRID_OPTS[gname]["freq"])
+        per = {"6h": "12h", "12h": "d", "d": "2d", "4h": "8h", "8h": "d"}.get(f)
+        if per is None:
+            return None
+        opt["freq"] = f
+        opt["periodicity"] = per
+    elif kind == "freq":
         opt["freq"] = ch.pick("freq", GRID_OPTS[gname]["freq"])
     else:
         p = ch.pick("periodicity", GRID_OPTS[gname]["per"])
@@ -124,7 +131,7 @@ def run_case(case):
     scn = case["scenario"]
     tags = S.feature_tags(scn)
     a = [x for x in scn["assets"] if x["name"] == "x"][0]
-    opt_kind = "freq" if a.get("freq") else "periodicity"
+    opt_kind = "both" if (a.get("freq") and a.get("periodicity")) else "freq" if a.get("freq") else "periodicity"
     tags += ["option:" + opt_kind, "target:" + a["type"]]
     two_var = bool(a.get("extra_costs")) and a.get("min_cap", 0) < 0 < a.get("max_cap", 0) if a["type"] in ("SimpleContract", "Contract") else \
         (a["type"] == "Storage" and (a.get("eff_in", 1.0) != 1.0 or a.get("cost_in") or len(a["nodes"]) == 2))
@@ -146,6 +153,10 @@ def run_case(case):
     res["outcome"] = "%s/%s" % (run.status, rst)
     if run.status == "exception":
         res["counters"]["impl_error@%s" % run.site] = 1
+        if "periodicity cannot be imposed where disp factors are not identical" in str(run.error):
+            # explicit, documented refusal (coarse steps of unequal weight inside one period position): no claim
+            res.update(status="skip", validated=False, outcome="documented_refusal")
+            return res
         if rst in ("optimal", "infeasible"):
             V.append(viol("c13.raises", "%s with %s raises %s at %s (stage %s)" % (a["type"], {k: a[k] for k in ("freq", "periodicity", "periodicity_duration") if k in a},
                                                                                  run.error, run.site, run.stage), tags + ["site:%s" % run.site], ctag + ["site:%s" % run.site]))
@@ -170,6 +181,7 @@ def run_case(case):
             continue
         if a.get("freq"):
             groups = ref._groups(a, g.window(a.get("start"), a.get("end")))
+            W = [t for G in groups for t in G]
             inside = set(t for G in groups for t in G)
             for G in groups:
                 rates = [arr[t] / g.dt[t] for t in G]
@@ -179,7 +191,7 @@ def run_case(case):
             out = [t for t in range(g.T) if t not in inside and abs(arr[t]) > 1e-7]
             if out:
                 V.append(viol("c13.outside", "node %s: dispatch %.6f in step %d outside every complete coarse interval" % (nd, arr[out[0]], out[0]), tags, ctag))
-        else:
+        if a.get("periodicity"):
             cls = ref._periodic_classes(a, W) or []
             for C in cls:
                 vals = [arr[t] for t in C]
